@@ -203,6 +203,78 @@ def check_units(run):
 
 
 # --------------------------------------------------------------------------
+# writer formats: generated table, render/tokenise model vs Python's own formatting, directed inputs
+# --------------------------------------------------------------------------
+
+def check_formats(run, rng, thorough):
+    out = common.lean_run_driver("C17", ["formats"])
+    U.set_formats(out[0])
+    run.cov["writer_formats"] = {k: dict(v) for k, v in U.FORMATS.items()}
+    missing = [m for m in U.INTERFACES if m != "cp2k" and m not in U.FORMATS]
+    if missing:
+        run.broke("correspondence", "format table has no row for %r" % missing)
+    # model of "%W.Df" and of str.split() against Python itself
+    lines, want = [], []
+    for _ in range(120 if thorough else 40):
+        d = rng.choice([0, 2, 5, 6, 8, 10, 12, 16])
+        x = rng.choice([rng.uniform(-30, 30), rng.randint(-400, 400) / 16.0, rng.uniform(-1, 1) * 10 ** rng.randint(-9, 3), -0.0 + rng.randint(-3, 3)])
+        if x == 0:
+            x = 0.0
+        lines.append("render %d %s" % (d, U.fr(x)))
+        want.append("%.*f" % (d, x))
+    for _ in range(60 if thorough else 20):
+        w, d = rng.choice([(12, 8), (16, 12), (21, 16), (10, 8), (19, 16), (10, 6), (0, 10)])
+        sep = rng.choice([0, 1])
+        xs = [rng.choice([rng.uniform(-150, 150), rng.randint(-200, 200) / 8.0, rng.uniform(-1, 1)]) for _ in range(3)]
+        lines.append("line %d %d %d 3 %s" % (w, d, sep, " ".join(U.fr(x) for x in xs)))
+        want.append("|".join((((" " if sep else "") + "%*.*f") * 3 % tuple(v for x in xs for v in (w, d, x))).split()))
+    got = common.lean_run_driver("C17", lines)
+    for ln, a, b in zip(lines, got, want):
+        run.count("printf/split model", section="correspondence")
+        run.case(("fmt", ln), nontrivial=ln.startswith("line"))
+        if a != b:
+            run.broke("correspondence", "format model: %s -> %r, Python %r" % (ln[:80], a, b))
+    run.sample(dict(kind="format model", request=lines[-1], tokens=got[-1] if got else None), limit=14)
+
+
+def _directed_fusion_cells(rng):
+    """for every free-format row of the table without separator: a cell with a number whose printed text
+    fills the field (so that it touches its left neighbour), if such a number is a plausible input"""
+    from phonopy.structure.atoms import PhonopyAtoms
+
+    cases = []
+    for m, f in U.FORMATS.items():
+        if f["reader"] != "free":
+            continue
+        # lattice: an entry <= -10^(w-d-3) has w characters; plausible up to 60 Angstrom
+        if not f["lat_sep"] and f["lat_kind"] == "fixed" and f["lat_w"] > 0:
+            v = -(10.0 ** (f["lat_w"] - f["lat_d"] - 3)) - 0.5
+            if abs(v) <= 60:
+                lat = np.array([[2 * abs(v) + 1.0, v, 0.0], [0.25, 2 * abs(v), 0.5], [0.125, -0.25, 6.0]])  # v has a left neighbour
+                cell = PhonopyAtoms(cell=lat, symbols=["Na", "Cl"], scaled_positions=[[0.0625, 0.125, 0.25], [0.5, 0.5625, 0.75]])
+                cases.append((m, "lattice", cell, dict(interleaved=False, outside=False, moments=False, fine=False, wide_lattice=True)))
+            else:
+                cases.append((m, "lattice", None, "needs |entry| >= %g" % abs(v)))
+        if not f["pos_sep"] and f["pos_kind"] == "fixed" and f["pos_w"] > 0:
+            v = -(10.0 ** (f["pos_w"] - f["pos_d"] - 3)) - 0.25
+            lim = 60 if f["cart"] else 8
+            if abs(v) <= lim:
+                cell, meta = U.random_cell(rng, layout="grouped", outside=False)
+                pos = cell.scaled_positions
+                if f["cart"]:
+                    pos[0] = np.linalg.solve(cell.cell.T, np.array([1.0, v, 0.5]))
+                    pos[0] = np.round(pos[0] * 16) / 16
+                else:
+                    pos[0, 1] = v
+                cell = PhonopyAtoms(cell=cell.cell, symbols=cell.symbols, scaled_positions=pos)
+                meta["outside"] = True
+                cases.append((m, "position", cell, meta))
+            else:
+                cases.append((m, "position", None, "needs |coordinate| >= %g" % abs(v)))
+    return cases
+
+
+# --------------------------------------------------------------------------
 # sort_positions_by_symbols vs stableGroup
 # --------------------------------------------------------------------------
 
@@ -245,6 +317,16 @@ class RoundTrips:
         self.lines.append(U.request(interface, cin, cout, out_moments=out_moments))
         diag = U.python_verdict(interface, cin, cout, out_moments=out_moments)
         order = U.atom_order(cin, cout) if len(cin) == len(cout) else None
+        f = U.FORMATS.get(interface)
+        if f is not None and order is not None and what.startswith("unit cell") and diag == "ok":
+            # the table's `wraps` flag against what the writer did
+            sp = np.asarray(cout.scaled_positions)
+            inside = bool((sp > -1e-9).all() and (sp < 1 + 1e-9).all())
+            same = bool(np.abs(sp - np.asarray(cin.scaled_positions)[order]).max() < 1e-6)
+            if meta.get("outside") and (f["wraps"] and not inside or (not f["wraps"]) and not same):
+                self.run.broke("correspondence", "format table says wraps=%s for %s, but positions outside [0,1) came back %s" % (
+                    f["wraps"], interface, "inside [0,1)" if inside else "unreduced" if same else "changed"))
+            self.run.count("wraps flag confirmed on a cell with positions outside [0,1)" if meta.get("outside") else "wraps flag not exercised", section="correspondence")
         self.meta.append((interface, what, cin, meta, diag, site or "write_crystal_structure[%s]" % interface, order))
 
     def failed(self, interface, what, cin, meta, exc, stage, site=None):
@@ -312,6 +394,8 @@ def _suffix(meta):
         s += "-moments"
     if meta.get("fine"):
         s += "-fine"
+    if meta.get("wide_lattice"):
+        s += "-wide-lattice"
     return s
 
 
@@ -343,6 +427,40 @@ def _needed_features(m, cell, meta, status, path, direct):
     return need
 
 
+def _judge(run, rt, m, cell, meta, what, path):
+    """one unit-cell round trip: hand the pair to the checker, or report why there is no pair"""
+    variants = [(False, "write_crystal_structure[%s]" % m, what)]
+    for direct, site, label in variants:
+        status, out, exc = _attempt(m, cell, path + ("d" if direct else ""), direct)
+        if status == "ok":
+            rt.add(m, label, cell, out, meta, site=site)
+            continue
+        fmeta = dict(meta)
+        fmeta.update(_needed_features(m, cell, meta, status, path + ("d" if direct else ""), direct))
+        if out is not None:
+            rt.add(m, label, cell, out, fmeta, site=site)
+        elif status == "unreadable":
+            run.violation("read_crystal_structure[%s]" % m, "reader-returns-None" + _suffix(fmeta), "%s: file written by the same interface is not readable" % m,
+                          dict(interface=m, cell=_cell_dict(cell)))
+        else:
+            rt.failed(m, label, cell, fmeta, exc, "roundtrip", site=site)
+            if m == "fleur" and not direct:  # look behind the dispatcher's failure at the writer itself
+                variants.append((True, "get_fleur_structure", what + " (write_fleur called directly)"))
+
+
+def check_directed_formats(run, rng, rt):
+    """inputs aimed at the unseparated fields the generated table lists"""
+    skipped = {}
+    for k, (m, role, cell, meta) in enumerate(_directed_fusion_cells(rng)):
+        if cell is None:
+            skipped["%s %s" % (m, role)] = "unseparated field, but fusing %s (not a plausible input)" % meta
+            continue
+        run.count("directed: unseparated %s field (%s)" % (role, m))
+        run.case(("directed", m, role) + _cell_case(cell), nontrivial=True)
+        _judge(run, rt, m, cell, meta, "cell aimed at the unseparated %s field" % role, "dir_%s_%s_%d" % (m, role, k))
+    run.cov["unseparated_fields_not_exercised"] = skipped
+
+
 def check_roundtrips(run, rng, rt, ncells):
     not_covered = {}
     for m in U.INTERFACES:
@@ -370,23 +488,7 @@ def check_roundtrips(run, rng, rt, ncells):
                     run.count("cells: %s" % k)
             if t == 0:
                 run.sample(dict(kind="round trip", interface=m, cell=_cell_dict(cell), **meta), limit=8)
-            variants = [(False, "write_crystal_structure[%s]" % m, what)]
-            for direct, site, label in variants:
-                status, out, exc = _attempt(m, cell, path + ("d" if direct else ""), direct)
-                if status == "ok":
-                    rt.add(m, label, cell, out, meta, site=site)
-                    continue
-                fmeta = dict(meta)
-                fmeta.update(_needed_features(m, cell, meta, status, path + ("d" if direct else ""), direct))
-                if out is not None:
-                    rt.add(m, label, cell, out, fmeta, site=site)
-                elif status == "unreadable":
-                    run.violation("read_crystal_structure[%s]" % m, "reader-returns-None" + _suffix(fmeta), "%s: file written by the same interface is not readable" % m,
-                                  dict(interface=m, cell=_cell_dict(cell)))
-                else:
-                    rt.failed(m, label, cell, fmeta, exc, "roundtrip", site=site)
-                    if m == "fleur" and not direct:  # look behind the dispatcher's failure at the writer itself
-                        variants.append((True, "get_fleur_structure", what + " (write_fleur called directly)"))
+            _judge(run, rt, m, cell, meta, what, path)
     return not_covered
 
 
@@ -395,7 +497,7 @@ def check_displaced(run, rng, rt, thorough):
     from phonopy import Phonopy
     from phonopy.interface.calculator import write_supercells_with_displacements
 
-    nruns = 10 if thorough else 2
+    nruns = 24 if thorough else 2
     for r in range(nruns):
         layout = "interleaved" if r % 2 == 0 else rng.choice(["interleaved", "grouped"])
         cell, meta = U.random_cell(rng, natom=3 if r == 0 else rng.randint(3, 4), layout=layout, outside=False, moments=True)
@@ -595,10 +697,123 @@ def check_force_sets(run, rng):
 
 
 # --------------------------------------------------------------------------
+# create_FORCE_SETS' guards vs the ForcePairing model
+# --------------------------------------------------------------------------
+
+def check_force_pairing_model(run, rng, reps=1):
+    for rep in range(reps):
+        _force_pairing_model_once(run, rng, rep)
+
+
+def _force_pairing_model_once(run, rng, rep):
+    from phonopy import Phonopy
+    from phonopy.cui.create_force_sets import create_FORCE_SETS
+    from phonopy.interface.phonopy_yaml import PhonopyYaml
+    from phonopy.structure.atoms import PhonopyAtoms
+    from phonopy.structure.dataset import get_displacements_and_forces
+
+    top = os.getcwd()
+    lines, impl, info = [], [], []
+    cell, _ = U.random_cell(rng, natom=rng.randint(2, 3), layout="grouped", outside=False)
+    smat = np.diag([2, 1, 1])
+    with quiet():
+        ph = Phonopy(cell, supercell_matrix=smat, primitive_matrix="P", log_level=0)
+        ph.generate_displacements(distance=0.03)
+    sc = ph.supercell
+    n = len(sc)
+    nd = min(3, len(ph.dataset["first_atoms"]))
+    ph.dataset = {"natom": n, "first_atoms": ph.dataset["first_atoms"][:nd]}
+    dcells = ph.supercells_with_displacements[:nd]
+    fdisp = get_displacements_and_forces(ph.dataset)[0] @ np.linalg.inv(sc.cell)
+
+    def rf(x):  # the number the reader gets from the 16-decimal text
+        return float("%20.16f" % x)
+
+    kinds = ["ok", "lattice-shift", "rows-permuted", "files-swapped", "one-file-missing", "row-missing", "atom-moved"]
+    for c in ("vasp", "qe"):
+        for kind in kinds:
+            if kind == "files-swapped" and nd < 2:
+                continue
+            sub = os.path.join(top, "fpair_%d_%s_%s" % (rep, c, kind))
+            os.makedirs(sub)
+            os.chdir(sub)
+            try:
+                with quiet():
+                    ph.save("phonopy_disp.yaml")
+                phy = PhonopyYaml()
+                phy.read("phonopy_disp.yaml")
+                files = []
+                for i, dc in enumerate(dcells):
+                    pos = dc.scaled_positions.copy()
+                    f = np.array([[rng.randint(-20, 20) / 64.0 for _ in range(3)] for _ in range(n)])
+                    order = list(range(n))
+                    if kind == "lattice-shift":
+                        pos += np.array([[rng.randint(-2, 2) for _ in range(3)] for _ in range(n)])
+                    elif kind == "rows-permuted":
+                        order = order[1:] + order[:1]
+                    elif kind == "atom-moved" and i == nd - 1:
+                        pos[n - 1, 0] += 1.0 / 64
+                    elif kind == "row-missing" and i == 0:
+                        order = order[:-1]
+                    files.append((pos[order], f[order]))
+                if kind == "files-swapped":
+                    files[0], files[1] = files[1], files[0]
+                if kind == "one-file-missing":
+                    files = files[:-1]
+                names = []
+                for i, (pos, f) in enumerate(files):
+                    fcell = PhonopyAtoms(cell=sc.cell, symbols=["H"] * len(pos), scaled_positions=pos)
+                    FO.write_output(c, "o-%d" % i, f, fcell)
+                    names.append("o-%d" % i)
+                outcome = "ok"
+                try:
+                    with quiet():
+                        create_FORCE_SETS(c, names, phpy_yaml=phy, disp_filename="phonopy_disp.yaml", force_sets_filename="FORCE_SETS", log_level=0)
+                    if not os.path.isfile("FORCE_SETS"):
+                        outcome = "nothing-written"
+                except RuntimeError as e:
+                    if "match" not in str(e):
+                        raise
+                    outcome = "position"
+                except KeyError:
+                    outcome = "nothing-written"  # vasp: parser returns {} for a file with another number of rows
+                toks = ["fpair", "1" if c == "vasp" else "0", str(n), U.lattice_wire(sc.cell, True), "1/10000000000", str(n)]
+                toks += [U.fr(x) for x in sc.scaled_positions.ravel()]
+                toks.append(str(nd))
+                toks += [U.fr(x) for x in fdisp[:nd].ravel()]
+                toks.append(str(len(files)))
+                for pos, f in files:
+                    toks.append(str(len(pos)))
+                    for p, g in zip(pos, f):
+                        toks += [U.fr(x) for x in g] + [U.fr(rf(x)) for x in p]
+                lines.append(" ".join(toks))
+                impl.append(outcome)
+                info.append((c, kind))
+                run.case(("fpair", c, kind) + _cell_case(cell), nontrivial=kind != "ok")
+                # oracle on the implementation: pairs or refuses
+                if c == "vasp" and kind in ("rows-permuted", "files-swapped", "atom-moved") and outcome == "ok":
+                    run.violation("create_FORCE_SETS", "accepts-mismatching-positions", "vasp output with %s accepted" % kind, dict(kind=kind, unitcell=_cell_dict(cell)))
+                if kind in ("ok", "lattice-shift") and outcome != "ok":
+                    run.violation("create_FORCE_SETS", "refuses-matching-output", "%s output (%s) refused: %s" % (c, kind, outcome), dict(kind=kind, unitcell=_cell_dict(cell)))
+                if kind in ("one-file-missing", "row-missing") and outcome == "ok":
+                    run.violation("create_FORCE_SETS", "accepts-wrong-count", "%s output with %s accepted" % (c, kind), dict(kind=kind, unitcell=_cell_dict(cell)))
+                run.count("oracle-create_FORCE_SETS-guards", section="oracle")
+            finally:
+                os.chdir(top)
+    out = common.lean_run_driver("C17", lines)
+    for (c, kind), a, b in zip(info, out, impl):
+        run.count("create_FORCE_SETS guards vs ForcePairing.collect", section="correspondence")
+        model = {"ok": "ok", "count": "nothing-written"}.get(a, "nothing-written" if a.startswith("natom") else "position" if a.startswith("position") else a)
+        if model != b:
+            run.broke("correspondence", "create_FORCE_SETS(%s, %s): implementation %s, model %s" % (c, kind, b, a))
+    run.sample(dict(kind="force pairing guards", request=lines[0][:160] + " ...", model=out[0] if out else None, implementation=impl[0]), limit=12)
+
+
+# --------------------------------------------------------------------------
 # force collection: same physical forces through every interface's parser
 # --------------------------------------------------------------------------
 
-def check_force_collection(run, rng):
+def check_force_collection(run, rng, reps=1):
     import phonopy.units as PU
     from phonopy import Phonopy
     from phonopy.cui.create_force_sets import create_FORCE_SETS
@@ -611,8 +826,8 @@ def check_force_collection(run, rng):
     status = {}
     convention = {}
     TOL = 2e-8  # eV/Angstrom; FORCE_SETS carries 10 decimals in the calculator's force unit
-    for layout in ("grouped", "interleaved"):
-        cell, meta = U.random_cell(rng, natom=3, layout=layout, outside=False)
+    for rep, layout in enumerate(["grouped", "interleaved"] * reps):
+        cell, meta = U.random_cell(rng, natom=3 if rep < 2 else rng.randint(3, 4), layout=layout, outside=False)
         smat = np.diag(rng.choice([[2, 1, 1], [1, 2, 1], [1, 1, 2]]))
         with quiet():
             ph = Phonopy(cell, supercell_matrix=smat, primitive_matrix="P", log_level=0)
@@ -628,8 +843,16 @@ def check_force_collection(run, rng):
             phys.append(-np.einsum("ijab,jb->ia", fc, d) + drift)
         want = [f - f.mean(axis=0) for f in phys]
         ph.dataset = {"natom": n, "first_atoms": ph.dataset["first_atoms"][:len(dcells)]}
-        for c in FO.INTERFACES:
-            sub = os.path.join(top, "fcoll_%s_%s" % (layout, c))
+        variants = [(c, None, None) for c in FO.INTERFACES]
+        # LAMMPS dump lines carry atom ids and may come in any order: a 3-cycle and a random non-involutive permutation
+        cyc = list(range(n))
+        cyc[0], cyc[1], cyc[2] = 1, 2, 0
+        rnd = list(range(n))
+        while rnd == sorted(rnd) or [rnd[k] for k in rnd] == list(range(n)):
+            rng.shuffle(rnd)
+        variants += [("lammps", "lines-3-cycle", cyc), ("lammps", "lines-shuffled", rnd)]
+        for c, vname, line_perm in variants:
+            sub = os.path.join(top, "fcoll_%d_%s_%s%s" % (rep, layout, c, "_" + vname if vname else ""))
             os.makedirs(sub)
             os.chdir(sub)
             try:
@@ -651,11 +874,13 @@ def check_force_collection(run, rng):
                 for i, (dc, f) in enumerate(zip(dcells, phys)):
                     fcell = PhonopyAtoms(cell=dc.cell, symbols=[dc.symbols[k] for k in order], scaled_positions=dc.scaled_positions[order])
                     nm = "out-%03d" % (i + 1)
-                    FO.write_output(c, nm, f[order] / native, fcell)
+                    FO.write_output(c, nm, f[order] / native, fcell, line_perm=line_perm)
                     names.append(nm)
-                case = dict(interface=c, layout=layout, unitcell=_cell_dict(cell), supercell_matrix=smat.tolist(), file_order=order,
+                if vname:
+                    run.count("force collection: lammps dump with ids in permuted line order", section="oracle")
+                case = dict(interface=c, layout=layout, line_order=line_perm, variant=vname, unitcell=_cell_dict(cell), supercell_matrix=smat.tolist(), file_order=order,
                             native_unit=FO.NATIVE_UNIT[c], drift_eV_per_A=[p.mean(axis=0).tolist() for p in phys])
-                run.case(("fcoll", c, layout) + _cell_case(cell), nontrivial=True)
+                run.case(("fcoll", c, layout, vname) + _cell_case(cell), nontrivial=True)
                 run.count("oracle-force-collection", section="oracle")
                 refused = False
                 try:
@@ -696,8 +921,9 @@ def check_force_collection(run, rng):
                                   "FORCE_SETS pairs the forces with the supercell order without checking or refusing" % (c, order), case)
                     continue
                 err = min(err, raw)
-                what = "%s: collected forces are neither F nor F - mean(F) (nearest differs by %.3g eV/A)" % (c, err)
-                run.violation("create_FORCE_SETS", "%s-forces-wrong" % c, what + "; unit %s -> %s, drift %r" % (
+                what = "%s%s: collected forces are neither F nor F - mean(F) (nearest differs by %.3g eV/A)" % (
+                    c, " (dump lines in id order %r)" % [k + 1 for k in line_perm] if line_perm else "", err)
+                run.violation("create_FORCE_SETS", "%s-forces-wrong%s" % (c, "-" + vname if vname else ""), what + "; unit %s -> %s, drift %r" % (
                     FO.NATIVE_UNIT[c], C.get_default_physical_units(c)["force_unit"], phys[0].mean(axis=0).round(4).tolist()), case)
             finally:
                 os.chdir(top)
@@ -715,7 +941,12 @@ def check_force_collection(run, rng):
 # end-to-end: one physical crystal in every unit system
 # --------------------------------------------------------------------------
 
-def check_unit_invariance(run, rng):
+def check_unit_invariance(run, rng, names=None):
+    for k, name in enumerate(names or [rng.choice(["nacl_prim", "zincblende_prim", "cscl"])]):
+        _unit_invariance_once(run, rng, name, k)
+
+
+def _unit_invariance_once(run, rng, name, rep):
     import phonopy
     import phonopy.units as PU
     from phonopy import Phonopy
@@ -723,7 +954,6 @@ def check_unit_invariance(run, rng):
     from phonopy.interface import calculator as C
     from phonopy.structure.atoms import PhonopyAtoms
 
-    name = rng.choice(["nacl_prim", "zincblende_prim", "cscl"])
     cell, _ = gen.make_cell(name)
     smat = np.diag([2, 2, 2])
     with quiet():
@@ -743,8 +973,8 @@ def check_unit_invariance(run, rng):
                 w.write(" ".join("%.12f" % x for x in b.ravel()) + "\n")
 
     # reference: the eV/Angstrom description through the same entry point (calculator=None)
-    os.makedirs("units_ref")
-    os.chdir("units_ref")
+    os.makedirs("units_ref_%d" % rep)
+    os.chdir("units_ref_%d" % rep)
     try:
         write_FORCE_CONSTANTS(fc, filename="FORCE_CONSTANTS")
         born_file()
@@ -770,7 +1000,7 @@ def check_unit_invariance(run, rng):
         fcu = _unit_value(u["force_constants_unit"], PU)  # eV/A^2 per unit
         lenu = _unit_value(u["length_unit"], PU)  # A per unit
         ucell = PhonopyAtoms(cell=cell.cell / lenu, symbols=cell.symbols, scaled_positions=cell.scaled_positions)
-        sub = os.path.join(top, "units_" + c)
+        sub = os.path.join(top, "units_%d_%s" % (rep, c))
         os.makedirs(sub)
         os.chdir(sub)
         try:
@@ -843,6 +1073,14 @@ def main(run):
         units2lean.generate(common.REPO, os.path.join(common.LEAN_DIR, "PhononModel", "Gen", "Units.lean"))
     except units2lean.Untranslatable as e:
         run.broke("proof", "T-units: phonopy/units.py or interface/calculator.py left the translatable subset: %s" % e)
+    import writers2lean
+
+    try:
+        writers2lean.generate(common.REPO, os.path.join(common.LEAN_DIR, "PhononModel", "Gen", "WriterFormats.lean"))
+    except writers2lean.Untranslatable as e:
+        run.broke("proof", "T-tables: a structure writer left the shape tools/writers2lean.py knows: %s" % e)
+    except Exception as e:  # changed source the tool cannot digest: the proof step is broken, the oracles still run
+        run.broke("proof", "tools/writers2lean.py failed on the working tree: %s: %s" % (type(e).__name__, e))
     run.proof_step(leancheck=thorough)
 
     run.cov["rule"] = (
@@ -870,20 +1108,26 @@ def main(run):
     ]
 
     check_units(run)
-    check_stable_group(run, rng, 300 if thorough else 25)
+    try:
+        check_formats(run, rng, thorough)
+    except common.Broken as b:
+        run.broke("correspondence", "format table / model unavailable: %s" % b.what, b.detail)
+    check_stable_group(run, rng, 1000 if thorough else 25)
 
     top = os.getcwd()
     work = tempfile.mkdtemp(prefix="verif-c17-", dir="/tmp")
     os.chdir(work)
     try:
         rt = RoundTrips(run)
-        not_covered = check_roundtrips(run, rng, rt, ncells=60 if thorough else 8)
+        not_covered = check_roundtrips(run, rng, rt, ncells=160 if thorough else 8)
+        check_directed_formats(run, rng, rt)
         check_displaced(run, rng, rt, thorough)
         rt.flush()
         run.cov["not_covered"] = not_covered
         check_force_sets(run, rng)
-        check_force_collection(run, rng)
-        check_unit_invariance(run, rng)
+        check_force_collection(run, rng, reps=6 if thorough else 1)
+        check_force_pairing_model(run, rng, reps=6 if thorough else 1)
+        check_unit_invariance(run, rng, names=["nacl_prim", "zincblende_prim", "cscl"] * 3 if thorough else None)
     finally:
         os.chdir(top)
         shutil.rmtree(work, ignore_errors=True)
